@@ -49,8 +49,15 @@ def build_row(v):
     return enc.build_value(v)
 
 
-def build_array(arr, kind):
-    rows = [build_row(r) for r in arr]
+def build_array(arr, kind, derive=False):
+    """derive: FmtStr rows are restyled versions of values that were rendered before (enc.WARM bit 256)"""
+    saved = enc.WARM
+    if derive:
+        enc.WARM = saved | 256
+    try:
+        rows = [build_row(r) for r in arr]
+    finally:
+        enc.WARM = saved
     if kind == "fsarray":
         from curtsies.formatstringarray import fsarray
         return fsarray(rows)
